@@ -203,3 +203,34 @@ int MPI_Unpack(const void *in, int insize, int *pos, void *out, int outcount, MP
     if (n > 0) memcpy(out, (const char *)in + *pos, (size_t)n);
     *pos += (int)n; return MPI_SUCCESS;
 }
+
+/* ---- datatype introspection for captured constructors (MPI_Type_get_envelope / get_contents) ---- */
+int MPI_Type_get_envelope(MPI_Datatype t, int *ni, int *na, int *nd, int *combiner) {
+    struct vt_type *v = vt_type_of(t);
+    *ni = 0; *na = 0; *nd = 0;
+    if (!v) { *combiner = MPI_COMBINER_NAMED; return MPI_SUCCESS; }
+    *nd = 1;
+    switch (v->kind) {
+    case T_CONTIG: *ni = 1; *combiner = MPI_COMBINER_CONTIGUOUS; break;
+    case T_RESIZED: *na = 2; *combiner = MPI_COMBINER_RESIZED; break;
+    case T_DUP: *combiner = MPI_COMBINER_DUP; break;
+    case T_VECTOR: *ni = 3; *combiner = MPI_COMBINER_VECTOR; break;
+    case T_HVECTOR: *ni = 2; *na = 1; *combiner = MPI_COMBINER_HVECTOR; break;
+    default: ASSUME(0);        /* other constructors are not introspected by any harness */
+    }
+    return MPI_SUCCESS;
+}
+int MPI_Type_get_contents(MPI_Datatype t, int ni, int na, int nd, int ints[], MPI_Aint adds[], MPI_Datatype types[]) {
+    struct vt_type *v = vt_type_of(t);
+    ASSUME(v != NULL);
+    types[0] = (MPI_Datatype)v->old;
+    switch (v->kind) {
+    case T_CONTIG: ints[0] = (int)v->count; break;
+    case T_RESIZED: adds[0] = v->lb; adds[1] = v->extent; break;
+    case T_DUP: break;
+    case T_VECTOR: ints[0] = (int)v->count; ints[1] = (int)v->blocklen; ints[2] = (int)v->stride; break;
+    case T_HVECTOR: ints[0] = (int)v->count; ints[1] = (int)v->blocklen; adds[0] = v->stride; break;
+    default: ASSUME(0);
+    }
+    return MPI_SUCCESS;
+}
